@@ -346,8 +346,40 @@ def oracle_tree(c, ctx):
     ctx.hist("tree_top", node.kind)
 
 
+def replay_fuzz(rec):
+    """Re-run one fuzz record (plain regression check, bypasses atheris)."""
+    k = rec["kind"]
+    if k in ("Stack", "Concatenate", "Chain"):
+        shapes = [tuple(s) for s in rec["shapes"]]
+        kids = [B.Identity(s) for s in shapes]
+        zs = [np.zeros(s) for s in shapes]
+        try:
+            want = {"Stack": lambda: np.stack(zs, rec["axis"]).shape, "Concatenate": lambda: np.concatenate(zs, rec["axis"]).shape,
+                    "Chain": lambda: shapes[0] if all(s == shapes[0] for s in shapes) else (_ for _ in ()).throw(ValueError())}[k]()
+        except Exception:  # noqa: BLE001
+            want = None
+        build = {"Stack": lambda: B.Stack(kids, axis=rec["axis"]), "Concatenate": lambda: B.Concatenate(kids, axis=rec["axis"]),
+                 "Chain": lambda: B.Chain(kids)}[k]
+    elif k == "Reshape":
+        s1, s2 = tuple(rec["from"]), tuple(rec["to"])
+        want = s2 if int(np.prod(s1)) == int(np.prod(s2)) else None
+        build = lambda: B.Reshape(B.Identity(s1), s2)  # noqa: E731
+    else:
+        return
+    try:
+        obj = build()
+    except (ValueError, IndexError, TypeError):
+        if want is not None:
+            raise Violation(f"C13|fuzz_shapes|{k}", f"{rec}: raised although numpy gives {want}")
+        return
+    if want is None or tuple(obj.shape) != tuple(want):
+        raise Violation(f"C13|fuzz_shapes|{k}", f"{rec}: declared {tuple(obj.shape)}, numpy: {want}")
+
+
 def replay(spec, ctx):
     spec = spec.get("spec", spec) if "what" not in spec and "tree" not in spec and "ctor" not in spec else spec
+    if "fuzz" in spec:
+        return replay_fuzz(spec["fuzz"])
     if "ctor" in spec:
         return oracle_ctor(spec["ctor"], ctor_cases()[spec["ctor"]], ctx)
     if "tree" in spec:
@@ -359,10 +391,44 @@ def replay(spec, ctx):
     return oracle_instance(spec, ctx)
 
 
+def run_shape_fuzzer(ctx, runs):
+    """Coverage-guided fuzzing (atheris) of the constructors' shape algebra against NumPy semantics, see vf/fuzz_shapes.py."""
+    import json
+    import os
+    import subprocess
+    import sys
+    here = os.path.dirname(os.path.dirname(os.path.dirname(os.path.abspath(__file__))))
+    if not os.path.isdir(os.path.join(here, ".deps", "atheris")):
+        ctx.note("atheris not installed under /verif/.deps (setup.sh installs it from the wheelhouse): shape fuzzer skipped")
+        return
+    out = os.path.join(here, ".work", f"fuzz-{os.getpid()}.json")
+    os.makedirs(os.path.dirname(out), exist_ok=True)
+    p = subprocess.run([sys.executable, "-m", "vf.fuzz_shapes", "--runs", str(runs), "--seed", str(ctx.seed or 1), "--out", out],
+                       cwd=here, env=dict(os.environ), stdout=subprocess.PIPE, stderr=subprocess.STDOUT, text=True, timeout=1200)
+    if not os.path.exists(out):
+        raise RuntimeError("shape fuzzer produced no record:\n" + p.stdout[-1500:])
+    r = json.load(open(out))
+    os.remove(out)
+    st_ = r["stats"]
+    ctx.evaluated(int(st_["execs"]))
+    ctx.exhaustive["fuzz_shapes_execs"] = int(st_["execs"])
+    for k, v in st_["kinds"].items():
+        ctx.hist("fuzz_kind", k, v)
+    ctx.hist("fuzz_outcome", "valid", st_["valid"])
+    ctx.hist("fuzz_outcome", "rejected", st_["rejected"])
+    for smp in st_["samples"][:3]:
+        ctx.sample({"fuzz_shapes": smp})
+    if r["failure"]:
+        f = r["failure"]
+        ctx.fail(f"C13|fuzz_shapes|{f['rec']['kind']}", {"fuzz": f["rec"]}, f["why"])
+
+
 def run(ctx):
     q = ctx.tier == "quick"
     if ctx.gindex == 0:
         oracle_classes(ctx)
+    if ctx.gindex == 1 % max(1, ctx.gsize):
+        run_shape_fuzzer(ctx, 30000 if q else 600000)
     n = 0
     ctors = ctor_cases()
     work = [("inst", c) for c in lattice()] + [("dist", c) for c in dist_cases()] + [("ctor", k) for k in ctors]
